@@ -8,6 +8,7 @@
 from __future__ import annotations
 
 import collections
+import itertools
 import logging
 import operator
 import sys
@@ -454,7 +455,11 @@ class HelicityAmplitudeBuilder:
 
         amplitude = self.config.spin_alignment.formulate_amplitude(self.reaction)
         spin_projections = collect_spin_projections(self.reaction)
-        return PoolSum(sp.Abs(amplitude) ** 2, *spin_projections.items())
+        intensity = PoolSum(sp.Abs(amplitude) ** 2, *spin_projections.items())
+        # helicity combinations for which the reaction has no transition do not contribute
+        for symbol in _collect_amplitude_symbols(intensity):
+            self.__ingredients.amplitudes.setdefault(symbol, sp.S.Zero)
+        return intensity
 
     def __register_amplitudes(self, transition_group: list[StateTransition]) -> None:
         transition_by_topology = group_by_topology(transition_group)
@@ -579,6 +584,27 @@ class HelicityAmplitudeBuilder:
                     if coefficient_suffix != raw_suffix:
                         return sp.Rational(prefactor)
         return None
+
+
+def _collect_amplitude_symbols(
+    expr: sp.Basic, pools: dict[sp.Basic, tuple[sp.Basic, ...]] | None = None
+) -> set[sp.Indexed]:
+    """Collect all amplitude symbols that the (nested) `.PoolSum` sums over."""
+    if pools is None:
+        pools = {}
+    if isinstance(expr, PoolSum):
+        pools = {**pools, **{idx: tuple(values) for idx, values in expr.indices}}
+        return _collect_amplitude_symbols(expr.expression, pools)
+    if isinstance(expr, sp.Indexed):
+        indices = sorted(expr.free_symbols & set(pools), key=str)
+        return {
+            expr.xreplace(dict(zip(indices, values)))  # type: ignore[misc]
+            for values in itertools.product(*(pools[i] for i in indices))
+        }
+    symbols: set[sp.Indexed] = set()
+    for arg in expr.args:
+        symbols |= _collect_amplitude_symbols(arg, pools)
+    return symbols
 
 
 def _perform_combinatorics(
